@@ -284,3 +284,7 @@ Proof.
   cbn [nth]. unfold is_not_key_char in Hc. rewrite !orb_false_iff in Hc.
   destruct Hc as [[[H0 H1] H2] H3]. apply N.eqb_neq in H0, H1, H2, H3. tauto.
 Qed.
+
+(* generated obligation: the four real key tables satisfy the round-trip side condition *)
+Lemma real_tables_rt_ok : forallb table_rt_ok real_tables = true.
+Proof. vm_compute. reflexivity. Qed.
